@@ -15,7 +15,7 @@ type silSetFacts struct {
 	validate        ssa.CallInstruction
 	setCalls        []ssa.CallInstruction // setSilence calls
 	expCalls        []ssa.CallInstruction // expire calls
-	updSet, creSet  ssa.CallInstruction   // in-place / create setSilence
+	updSets, creSets []ssa.CallInstruction // in-place / create setSilence calls
 	sizeOK          LitM
 	mutating        func(ssa.Instruction) bool
 	createPathReach *Reached
@@ -39,17 +39,17 @@ func resolveSilSet(o *Ob) *silSetFacts {
 	f.expCalls = e.Calls(fn, "(*am/silence.Silences).expire")
 	f.mutating = AnyOf(IsCall("(*am/silence.Silences).setSilence"), IsCall("(*am/silence.Silences).expire"), IsCall("(am/silence.state).merge"),
 		IsCall("(*am/silence.Silences).indexSilence"), isMapUpdate)
-	o.Require(len(f.setCalls) == 2, "set-calls", "Set must store through setSilence on exactly the update and the create path, found "+itoa(len(f.setCalls))+" call(s)", nil)
+	o.Require(len(f.setCalls) >= 2, "set-calls", "Set must store through setSilence on the update and the create path, found "+itoa(len(f.setCalls))+" call(s)", nil)
 	// create path = what is reachable without taking the canUpdate-true edge
 	f.createPathReach = (&Walk{Fn: fn, Cut: e.CutLits(f.canUpd)}).FromEntry()
 	for _, c := range f.setCalls {
 		if f.createPathReach.Has(c) {
-			f.creSet = c
+			f.creSets = append(f.creSets, c)
 		} else {
-			f.updSet = c
+			f.updSets = append(f.updSets, c)
 		}
 	}
-	o.Require(f.creSet != nil && f.updSet != nil, "set-paths", "Set must have one in-place store (under canUpdate) and one create store", nil)
+	o.Require(len(f.creSets) > 0 && len(f.updSets) > 0, "set-paths", "Set must have one in-place store (under canUpdate) and one create store", nil)
 	f.sizeOK = LRe(`\(\(\*am/silence\.Silences\)\.checkSizeLimits\(recv, \(\*am/silence\.Silences\)\.toMeshSilence\(recv, p1\)\) == nil\)`, true)
 	return f
 }
@@ -97,14 +97,23 @@ func init() {
 			o.Check(n > 0, "unknown-id-noexit", "no exit found for an unknown id", nil)
 		}
 		// (c) in-place iff found ∧ canUpdate
-		o.Guarded(f.updSet, "inplace-found", "the in-place update", f.found)
-		o.Guarded(f.updSet, "inplace-canupdate", "the in-place update", f.canUpd)
-		o.Check(e.Arg(f.updSet, 1) == "(*am/silence.Silences).toMeshSilence(recv, p1)", "inplace-arg", "the in-place update must store the submitted silence", f.updSet)
-		o.Check(!f.createPathReach.Has(f.updSet), "inplace-only", "the in-place store is reachable without canUpdate", f.updSet)
+		for _, us := range f.updSets {
+			o.Guarded(us, "inplace-found", "the in-place update", f.found)
+			o.Guarded(us, "inplace-canupdate", "the in-place update", f.canUpd)
+			o.Check(e.Arg(us, 1) == "(*am/silence.Silences).toMeshSilence(recv, p1)", "inplace-arg", "the in-place update must store the submitted silence", us)
+		}
+		hasAny := func(r *Reached, cs []ssa.CallInstruction) ssa.CallInstruction {
+			for _, c := range cs {
+				if r.Has(c) {
+					return c
+				}
+			}
+			return nil
+		}
 		// found ∧ canUpdate ⇒ the create path is not taken
 		{
 			r := (&Walk{Fn: fn, Cut: e.CutContradicting(f.found, f.canUpd)}).FromEntry()
-			o.Check(!r.Has(f.creSet), "canupdate-creates", "although the edit may be applied in place a new silence can be created", f.creSet)
+			o.Check(hasAny(r, f.creSets) == nil, "canupdate-creates", "although the edit may be applied in place a new silence can be created", f.creSets[0])
 			for _, x := range f.expCalls {
 				o.Check(!r.Has(x), "canupdate-expires", "although the edit may be applied in place the old silence can be expired", x)
 			}
@@ -119,31 +128,36 @@ func init() {
 				o.Check(strings.Contains(v, "github.com/google/uuid.NewRandom()#0"), "fresh-id-source", "a new silence must get a fresh random UUID, gets "+v, st)
 				o.Check(!f.createPathReach.Has(st) == false, "fresh-id-path", "the id is reassigned on the in-place path", st)
 			}
-			o.Precedes(f.creSet, "fresh-id-before-store", "a created silence must get its fresh id before it is stored", func(in ssa.Instruction) bool {
-				st, ok := in.(*ssa.Store)
-				return ok && e.X(fn, st.Addr) == "p1.Id"
-			})
+			for _, cs := range f.creSets {
+				o.Precedes(cs, "fresh-id-before-store", "a created silence must get its fresh id before it is stored", func(in ssa.Instruction) bool {
+					st, ok := in.(*ssa.Store)
+					return ok && e.X(fn, st.Addr) == "p1.Id"
+				})
+			}
 			// inplace path never changes the id
 			for _, st := range ids {
 				r := (&Walk{Fn: fn, Barrier: IsInstr(st)}).FromEntry()
 				_ = r
 				rr := (&Walk{Fn: fn}).After(st)
-				o.Check(!rr.Has(f.updSet), "inplace-keeps-id", "the id can be replaced before an in-place update", st)
+				o.Check(hasAny(rr, f.updSets) == nil, "inplace-keeps-id", "the id can be replaced before an in-place update", st)
 			}
 			past := LRe(`\(p1\.StartsAt\.AsTime <t \(\*am/silence\.Silences\)\.nowUTC\(recv\)\)`, true)
-			var raise *ssa.Store
+			var raises []ssa.Instruction
 			for _, st := range e.StoresTo(fn, "p1.StartsAt") {
-				if f.createPathReach.Has(st) && (&Walk{Fn: fn}).After(st).Has(f.creSet) && !(&Walk{Fn: fn}).After(st).Has(f.validate) {
-					raise = st
+				if f.createPathReach.Has(st) && hasAny((&Walk{Fn: fn}).After(st), f.creSets) != nil && !(&Walk{Fn: fn}).After(st).Has(f.validate) {
+					raises = append(raises, st)
 				}
 			}
-			if o.Check(raise != nil, "start-raise", "a new silence whose start lies in the past must have its start raised to now", nil) {
-				o.Site(raise, "StartsAt := now")
-				o.Guarded(raise, "start-raise-guard", "raising the start", past)
-				o.Check(e.X(fn, raise.Val) == "timestamppb.New((*am/silence.Silences).nowUTC(recv))", "start-raise-value", "the start must be raised to now", raise)
+			if o.Check(len(raises) > 0, "start-raise", "a new silence whose start lies in the past must have its start raised to now", nil) {
+				for _, ri := range raises {
+					raise := ri.(*ssa.Store)
+					o.Site(raise, "StartsAt := now")
+					o.Guarded(raise, "start-raise-guard", "raising the start", past)
+					o.Check(e.X(fn, raise.Val) == "timestamppb.New((*am/silence.Silences).nowUTC(recv))", "start-raise-value", "the start must be raised to now", raise)
+				}
 				// past ⇒ raised before the create store
-				r := (&Walk{Fn: fn, Cut: e.CutContradicting(past), Barrier: IsInstr(raise)}).FromEntry()
-				o.Check(!r.Has(f.creSet), "start-raise-forced", "a silence starting in the past can be created without raising its start", f.creSet)
+				r := (&Walk{Fn: fn, Cut: e.CutContradicting(past), Barrier: IsInstr(raises...)}).FromEntry()
+				o.Check(hasAny(r, f.creSets) == nil, "start-raise-forced", "a silence starting in the past can be created without raising its start", f.creSets[0])
 			}
 			for _, sc := range f.setCalls {
 				o.Precedes(sc, "updatedat", "UpdatedAt must be set to now before the silence is stored", func(in ssa.Instruction) bool {
@@ -153,21 +167,23 @@ func init() {
 			}
 		}
 		// (e) previous silence expired iff found ∧ not expired
-		o.Require(len(f.expCalls) == 1, "expire-call", "the replaced silence must be expired at exactly one site, found "+itoa(len(f.expCalls)), nil)
-		ex := f.expCalls[0]
-		o.Site(ex, "expire previous")
+		o.Require(len(f.expCalls) >= 1, "expire-call", "the replaced silence must be expired, found no call of expire", nil)
 		notExp := LRe(`\(am/silence\.getState\(`+regexpQuote(f.prev)+`, \(\*am/silence\.Silences\)\.nowUTC\(recv\)\) == "expired"\)`, false)
-		o.Guarded(ex, "expire-found", "expiring the previous silence", f.found)
-		o.Guarded(ex, "expire-state", "expiring the previous silence", notExp)
-		o.Check(e.Arg(ex, 1) == f.prev+".Id", "expire-arg", "the silence that is expired must be the previous one, is "+e.Arg(ex, 1), ex)
-		o.Check(f.createPathReach.Has(ex), "expire-path", "the previous silence is expired on the in-place path", ex)
+		var exIns []ssa.Instruction
+		for _, ex := range f.expCalls {
+			exIns = append(exIns, ex)
+			o.Site(ex, "expire previous")
+			o.Guarded(ex, "expire-found", "expiring the previous silence", f.found)
+			o.Guarded(ex, "expire-state", "expiring the previous silence", notExp)
+			o.Check(e.Arg(ex, 1) == f.prev+".Id", "expire-arg", "the silence that is expired must be the previous one, is "+e.Arg(ex, 1), ex)
+			o.Check(f.createPathReach.Has(ex), "expire-path", "the previous silence is expired on the in-place path", ex)
+		}
 		{
 			r := (&Walk{Fn: fn, Cut: func(b *ssa.BasicBlock, s int) bool {
 				return e.CutContradicting(f.found, notExp)(b, s) || e.CutLits(f.canUpd)(b, s)
-			}, Barrier: IsInstr(ex)}).FromEntry()
-			o.Check(!r.Has(f.creSet), "expire-forced", "a history-rewriting edit can create the new silence without expiring the old pending/active one", f.creSet)
+			}, Barrier: IsInstr(exIns...)}).FromEntry()
+			o.Check(hasAny(r, f.creSets) == nil, "expire-forced", "a history-rewriting edit can create the new silence without expiring the old pending/active one", f.creSets[0])
 		}
-		o.Precedes(f.creSet, "noop", "", func(ssa.Instruction) bool { return true })
 		// (f) no rejecting exit after a mutation: after expire / setSilence only their own errors
 		for _, m := range append(append([]ssa.CallInstruction{}, f.expCalls...), f.setCalls...) {
 			after := (&Walk{Fn: fn}).After(m)
@@ -194,7 +210,7 @@ func init() {
 
 	reg("C12", "C12.2", "T6", "canUpdate: false for different matcher sets; active: start (seconds) unchanged ∧ new end ≥ now; pending: new start ≥ now; expired: never", func(o *Ob) {
 		fn := o.Fn("am/silence.canUpdate")
-		same := LRe(`slices\.EqualFunc\(p0\.MatcherSets, p1\.MatcherSets, func:am/silence\.canUpdate\$1\)`, true)
+		same := LRe(`slices\.EqualFunc\(p0\.MatcherSets, p1\.MatcherSets, (func|closure):[^,()]*\)`, true)
 		st := func(s string) LitM { return L(`(am/silence.getState(p0, p2) == "`+s+`")`, true) }
 		sameStart := L("((time.Time).Unix(p0.StartsAt.AsTime) == (time.Time).Unix(p1.StartsAt.AsTime))", true)
 		endPast := L("(p1.EndsAt.AsTime <t p2)", true)
@@ -205,13 +221,22 @@ func init() {
 			{Name: "active, start moved", Assume: A(same, st("active"), sameStart.Neg()), Ret: F},
 			{Name: "active, end before now", Assume: A(same, st("active"), sameStart, endPast), Ret: F},
 			{Name: "active, ok", Assume: A(same, st("active"), sameStart, endPast.Neg()), Ret: T},
-			{Name: "pending, start before now", Assume: A(same, st("active").Neg(), st("pending"), startPast), Ret: F},
-			{Name: "pending, ok", Assume: A(same, st("active").Neg(), st("pending"), startPast.Neg()), Ret: T},
-			{Name: "expired", Assume: A(same, st("active").Neg(), st("pending").Neg(), st("expired")), Ret: F},
+			{Name: "pending, start before now", Assume: A(same, st("pending"), startPast), Ret: F},
+			{Name: "pending, ok", Assume: A(same, st("pending"), startPast.Neg()), Ret: T},
+			{Name: "expired", Assume: A(same, st("expired")), Ret: F},
 			{Name: "unknown state", Assume: A(same, st("active").Neg(), st("pending").Neg(), st("expired").Neg()), NoReturn: true},
 		})
 		// the matcher comparison is proto.Equal element-wise
-		eq := o.Fn("am/silence.canUpdate$1")
+		// (the comparison function is whatever is handed to slices.EqualFunc)
+		ef := o.One(o.E.Calls(fn, "slices.EqualFunc"), "matcher-eqfunc", "matcher sets must be compared element-wise", fn)
+		var eq *ssa.Function
+		switch x := ef.Common().Args[2].(type) {
+		case *ssa.MakeClosure:
+			eq, _ = x.Fn.(*ssa.Function)
+		case *ssa.Function:
+			eq = x
+		}
+		o.Require(eq != nil, "matcher-eqfunc-fn", "the matcher set comparison function cannot be resolved", ef)
 		c := o.One(o.E.Calls(eq, "proto.Equal"), "matcher-eq", "matcher sets must be compared with proto.Equal", eq)
 		o.Check(o.E.Arg(c, 0) == "p0" && o.E.Arg(c, 1) == "p1", "matcher-eq-args", "matcher sets must be compared pairwise", c)
 		o.MinSites(7)
@@ -227,7 +252,11 @@ func init() {
 		o.Check(e.Arg(cl, 0) == e.X(fn, get.(*ssa.Call))+"#0", "clone-arg", "the clone must be of the stored silence", cl)
 		clone := e.X(fn, cl.(*ssa.Call))
 		now := "(*am/silence.Silences).nowUTC(recv)"
-		st := func(s string) LitM { return L(`(am/silence.getState(`+clone+`, `+now+`) == "`+s+`")`, true) }
+		stored := e.X(fn, get.(*ssa.Call)) + "#0"
+		// the state may be evaluated on the stored silence or on its (equal) clone
+		st := func(s string) LitM {
+			return LRe(`\(am/silence\.getState\((`+regexpQuote(clone)+`|`+regexpQuote(stored)+`), `+regexpQuote(now)+`\) == "`+s+`"\)`, true)
+		}
 		tsNow := "timestamppb.New(" + now + ")"
 		isSet := IsCall("(*am/silence.Silences).setSilence")
 		stField := func(f string) func(ssa.Instruction) bool {
@@ -245,9 +274,9 @@ func init() {
 		o.Table(fn, "expire", []Row{
 			{Name: "unknown id", Assume: A(found.Neg()), Ret: [][]string{Vals("am/silence.ErrNotFound")}, Never: []func(ssa.Instruction) bool{isSet}},
 			{Name: "already expired", Assume: A(found, st("expired")), Ret: [][]string{Vals("nil")}, Never: []func(ssa.Instruction) bool{isSet}},
-			{Name: "active", Assume: A(found, st("expired").Neg(), st("active")), Ret: [][]string{Vals("~.*setSilence.*#2")},
+			{Name: "active", Assume: A(found, st("active")), Ret: [][]string{Vals("~.*setSilence.*#2")},
 				Must: []func(ssa.Instruction) bool{stField("EndsAt"), stField("UpdatedAt"), isSet}, Never: []func(ssa.Instruction) bool{anyFieldStore("StartsAt")}},
-			{Name: "pending", Assume: A(found, st("expired").Neg(), st("active").Neg(), st("pending")), Ret: [][]string{Vals("~.*setSilence.*#2")},
+			{Name: "pending", Assume: A(found, st("pending")), Ret: [][]string{Vals("~.*setSilence.*#2")},
 				Must: []func(ssa.Instruction) bool{stField("EndsAt"), stField("StartsAt"), stField("UpdatedAt"), isSet}},
 		})
 		// all field stores target the clone
@@ -286,7 +315,14 @@ func init() {
 			}
 		}
 		o.Require(len(delSt) == 1 && len(delMi) == 1, "deletes", "GC must delete from the state and from the matcher index at one site each", nil)
-		ent := "recv.st[&sv:am/silence.silenceVersion.id]#0"
+		var stLk *ssa.Lookup
+		for _, in := range AllInstrs(fn) {
+			if lk, ok := in.(*ssa.Lookup); ok && lk.CommaOk && e.X(fn, lk.X) == "recv.st" {
+				stLk = lk
+			}
+		}
+		o.Require(stLk != nil, "gc-lookup", "GC no longer looks the indexed silences up in the state", nil)
+		ent := e.X(fn, stLk) + "#0"
 		live := LRe(`\(\(\*am/silence\.Silences\)\.nowUTC\(recv\) <t `+regexpQuote(ent)+`\.ExpiresAt\.AsTime\)`, true)
 		nilExp := L("("+ent+".ExpiresAt == nil)", true)
 		zeroExp := L("(time.Time).IsZero("+ent+".ExpiresAt.AsTime)", true)
@@ -321,7 +357,7 @@ func init() {
 		// live ⇒ kept in vi
 		{
 			bi, _ := l.BodyEntry()
-			r := (&Walk{Fn: fn, Cut: e.CutContradicting(live, nilExp.Neg(), zeroExp.Neg(), L("recv.st[&sv:am/silence.silenceVersion.id]#1", true)), Barrier: func(in ssa.Instruction) bool {
+			r := (&Walk{Fn: fn, Cut: e.CutContradicting(live, nilExp.Neg(), zeroExp.Neg(), L(e.X(fn, stLk)+"#1", true)), Barrier: func(in ssa.Instruction) bool {
 				for _, p := range parts {
 					if in == ssa.Instruction(p.Call) {
 						return true
@@ -412,7 +448,7 @@ func checkSilenceLimitsBeforeMutation(o *Ob, f *silSetFacts) {
 	fn := f.fn
 	noLimit := L("(recv.limits.MaxSilences == nil)", true)
 	limOff := L("(0 < dyn(fn=recv.limits.MaxSilences))", false)
-	fits := L("(dyn(fn=recv.limits.MaxSilences) < (len(recv.st) + 1))", false)
+	fits := L("(len(recv.st) < dyn(fn=recv.limits.MaxSilences))", true)
 	o.Check(e.CountLitEdges(fn, fits)+e.CountLitEdges(fn, fits.Neg()) > 0, "count-check", "Set no longer rejects when len(st)+1 exceeds the silence count limit", nil)
 	for _, m := range append(append([]ssa.CallInstruction{}, f.expCalls...), f.setCalls...) {
 		o.Site(m, "mutation after limit checks")
@@ -431,7 +467,7 @@ func checkSilenceLimitsBeforeMutation(o *Ob, f *silSetFacts) {
 	}
 	// the rejected count check returns an error without mutation
 	r := (&Walk{Fn: fn, Cut: e.CutContradicting(fits.Neg(), noLimit.Neg(), limOff.Neg())}).FromEntry()
-	for _, m := range append(append([]ssa.CallInstruction{}, f.expCalls...), f.creSet) {
+	for _, m := range append(append([]ssa.CallInstruction{}, f.expCalls...), f.creSets...) {
 		o.Check(!r.Has(m), "count-exceeded-mutates", "with the count limit exceeded a mutation is still reachable", m)
 	}
 }
